@@ -3,6 +3,7 @@ package props
 import (
 	"fmt"
 	"go/ast"
+	"go/token"
 	"go/types"
 	"os"
 	"sort"
@@ -27,6 +28,8 @@ func init() {
 		Run:         runC03,
 		Configs:     []string{"linux/amd64", "windows/amd64"},
 		Mutants: []Mutant{
+			{Name: "method-set-object-looked-up-without-origin", File: "go/ir/source.go", Rule: "R3.8", KeyPart: "findNamedFunc::object-table-key-is-origin",
+				Old: "\t\t\t\t\tm := obj.Origin()\n\t\t\t\t\treturn pkg.values[m].(*Function)\n", New: "\t\t\t\t\treturn pkg.values[obj].(*Function)\n"},
 			{Name: "coretype-result-asserted-unchecked", File: "staticcheck/sa9001/sa9001.go", Rule: "R3.6", KeyPart: "sa9001.run$1::CoreType-result-used-unchecked",
 				Old: "\t\t_, ok := typeutil.CoreType(typ).(*types.Chan)\n\t\tif !ok {\n\t\t\treturn\n\t\t}\n", New: "\t\tif _, isMap := typeutil.CoreType(typ).Underlying().(*types.Map); isMap {\n\t\t\treturn\n\t\t}\n\t\t_, ok := typeutil.CoreType(typ).(*types.Chan)\n\t\tif !ok {\n\t\t\treturn\n\t\t}\n"},
 			{Name: "nilness-array-length-from-core-type", File: "analysis/facts/nilness/nilness.go", Rule: "R3.6", KeyPart: "nilness.impl",
@@ -901,6 +904,304 @@ func runC03(c *Ctx) {
 		}
 		if nCalls < 8 {
 			c.Undecided("found only %d uses of typeutil.CoreType in analysis code", nCalls)
+		}
+	})
+	// R3.8: tables keyed by go/types objects are keyed by ORIGIN objects. The
+	// method objects found in a method set or selection of an instantiated
+	// generic type are copies (same position, different identity); looking one
+	// up without Origin() misses, and the unchecked use of the missing entry
+	// panics inside whatever analyzer asked (ir.EnclosingFunction, …).
+	c.Rule("R3.8", func() {
+		c.Floor("R3.8", 3)
+		isObjKey := func(t types.Type) bool {
+			m, ok := t.Underlying().(*types.Map)
+			if !ok {
+				return false
+			}
+			ks := m.Key().String()
+			return ks == "go/types.Object" || ks == "*go/types.Func" || ks == "*go/types.Var"
+		}
+		fromInstantiable := func(v ssa.Value) bool {
+			call, ok := v.(*ssa.Call)
+			if !ok {
+				return false
+			}
+			switch CalleeName(&call.Call) {
+			case "go/types.Selection.Obj", "go/types.MethodSet.At", "go/types.MethodSet.Lookup", "go/types.LookupFieldOrMethod", "go/types.Named.Method":
+				return true
+			}
+			return false
+		}
+		isOrigin := func(v ssa.Value) bool {
+			call, ok := v.(*ssa.Call)
+			return ok && (CalleeName(&call.Call) == "go/types.Func.Origin" || CalleeName(&call.Call) == "go/types.Var.Origin")
+		}
+		n := 0
+		for _, fn := range c.ModuleFuncs() {
+			if FuncPkgPath(fn) != irPkg || len(fn.Blocks) == 0 {
+				continue
+			}
+			k := 0
+			Instrs(fn, false, func(in ssa.Instruction) {
+				lk, ok := in.(*ssa.Lookup)
+				if !ok || !isObjKey(lk.X.Type()) {
+					return
+				}
+				n++
+				// an origin-normalised key: Origin() directly below conversions
+				key := lk.Index
+				normalised := SliceHas(key, SliceOpts{Stop: isOrigin}, isOrigin) && !SliceHas(key, SliceOpts{Stop: isOrigin}, fromInstantiable)
+				risky := SliceHas(key, SliceOpts{Stop: isOrigin}, fromInstantiable)
+				k++
+				c.Check(FuncKey(fn)+"::object-table-key-is-origin#"+itoa(k), lk.Pos(), normalised || !risky, "the key of this lookup in a table keyed by go/types objects comes out of a method set or selection, which for instantiated generic types yields copies of the declared method; without Origin() the lookup misses and the entry is used unchecked")
+			})
+		}
+		if n < 3 {
+			c.Undecided("found only %d lookups in object-keyed tables of go/ir", n)
+		}
+	})
+	// R3.9: switches over a token with a panicking default. The universe of a
+	// token depends on where it comes from: the Tok of a GenDecl is one of four
+	// keywords; the Op of an IR comparison is any of the six comparison
+	// operators unless one operand is known to be nil, for which the language
+	// allows only == and != — and "known to be nil" must be established with
+	// (*ir.Const).IsNil, because a constant without a value is also how the zero
+	// value of a type parameter is represented (x < zero is valid Go).
+	c.Rule("R3.9", func() {
+		c.Floor("R3.9", 3)
+		cmpOps := []string{"EQL", "NEQ", "LSS", "LEQ", "GTR", "GEQ"}
+		genDeclToks := []string{"IMPORT", "CONST", "TYPE", "VAR"}
+		unaryOps := []string{"ADD", "SUB", "NOT", "XOR", "AND", "ARROW"} // ~ occurs only in constraints, * is a StarExpr
+		binaryOps := []string{"ADD", "SUB", "MUL", "QUO", "REM", "AND", "OR", "XOR", "SHL", "SHR", "AND_NOT", "LAND", "LOR", "EQL", "NEQ", "LSS", "LEQ", "GTR", "GEQ"}
+		reviewed := map[string]string{
+			"go/ir.emitArith":                "the operator is a parameter: called by expr0 under its case list of arithmetic and shift operators, and by assignOp with the operator of x op= y / x++ / x-- (arithmetic, shift or bitwise by the grammar)",
+			"simple/s1004.CheckBytesCompare": "the token is bound by the pattern (Or \"==\" \"!=\"), which admits exactly the two handled operators",
+		}
+		// nil tests: functions all of whose results are false or (*ir.Const).IsNil()
+		isNilTest := func(f *ssa.Function) bool {
+			if f == nil || len(f.Blocks) == 0 {
+				return false
+			}
+			rets := Returns(f)
+			if len(rets) == 0 {
+				return false
+			}
+			sawIsNil := false
+			for _, r := range rets {
+				v := ReturnOperand(r, 0)
+				if k, ok := v.(*ssa.Const); ok && k.Value != nil && k.Value.String() == "false" {
+					continue
+				}
+				if call, ok := v.(*ssa.Call); ok && CalleeName(&call.Call) == irPkg+".Const.IsNil" {
+					sawIsNil = true
+					continue
+				}
+				return false
+			}
+			return sawIsNil
+		}
+		n := 0
+		var paths []string
+		for path := range c.Pkgs {
+			if InModule(path) && !strings.Contains(path, "/internal/xtools-internal") {
+				paths = append(paths, path)
+			}
+		}
+		sort.Strings(paths)
+		for _, path := range paths {
+			p := c.Pkgs[path]
+			for _, f := range p.Syntax {
+				for _, d := range f.Decls {
+					fd, ok := d.(*ast.FuncDecl)
+					if !ok || fd.Body == nil {
+						continue
+					}
+					ord := 0
+					ast.Inspect(fd.Body, func(x ast.Node) bool {
+						sw, ok := x.(*ast.SwitchStmt)
+						if !ok || sw.Tag == nil {
+							return true
+						}
+						tt := p.TypesInfo.TypeOf(sw.Tag)
+						if tt == nil || tt.String() != "go/token.Token" {
+							return true
+						}
+						var def *ast.CaseClause
+						have := map[string]bool{}
+						for _, cl := range sw.Body.List {
+							cc := cl.(*ast.CaseClause)
+							if cc.List == nil {
+								def = cc
+							}
+							for _, e := range cc.List {
+								if se, ok := ast.Unparen(e).(*ast.SelectorExpr); ok {
+									have[se.Sel.Name] = true
+								} else if id, ok := ast.Unparen(e).(*ast.Ident); ok {
+									have[id.Name] = true
+								}
+							}
+						}
+						if def == nil || !mustPanic(p, def.Body) {
+							return true
+						}
+						n++
+						ord++
+						site := strings.TrimPrefix(path, Module+"/") + "." + fd.Name.Name
+						key := site + "::token-switch#" + itoa(ord)
+						missing := func(universe []string) []string {
+							var out []string
+							for _, u := range universe {
+								if !have[u] {
+									out = append(out, u)
+								}
+							}
+							return out
+						}
+						tag := resolveLocal(p, fd, sw.Tag)
+						// where the token comes from: follow one more local (op := binop.Op; op is reassigned when negated, so look at all definitions)
+						origin := ""
+						var visit func(e ast.Expr, depth int)
+						visit = func(e ast.Expr, depth int) {
+							e = ast.Unparen(e)
+							switch e := e.(type) {
+							case *ast.SelectorExpr:
+								xt := p.TypesInfo.TypeOf(e.X)
+								if xt != nil {
+									switch {
+									case strings.HasSuffix(xt.String(), "go/ir.BinOp") && e.Sel.Name == "Op":
+										origin = "ir.BinOp.Op"
+									case strings.HasSuffix(xt.String(), "go/ast.GenDecl") && e.Sel.Name == "Tok":
+										origin = "ast.GenDecl.Tok"
+									case strings.HasSuffix(xt.String(), "go/ast.UnaryExpr") && e.Sel.Name == "Op":
+										origin = "ast.UnaryExpr.Op"
+									case strings.HasSuffix(xt.String(), "go/ast.BinaryExpr") && e.Sel.Name == "Op":
+										origin = "ast.BinaryExpr.Op"
+									}
+								}
+							case *ast.Ident:
+								if depth > 3 {
+									return
+								}
+								obj := p.TypesInfo.ObjectOf(e)
+								ast.Inspect(fd.Body, func(y ast.Node) bool {
+									as, ok := y.(*ast.AssignStmt)
+									if !ok || len(as.Lhs) != len(as.Rhs) {
+										return true
+									}
+									for i, l := range as.Lhs {
+										if id, ok := l.(*ast.Ident); ok && p.TypesInfo.ObjectOf(id) == obj {
+											if _, isSel := ast.Unparen(as.Rhs[i]).(*ast.SelectorExpr); isSel {
+												visit(as.Rhs[i], depth+1)
+											}
+										}
+									}
+									return true
+								})
+							}
+						}
+						visit(tag, 0)
+						switch origin {
+						case "ast.GenDecl.Tok":
+							m := missing(genDeclToks)
+							c.Check(key, sw.Pos(), len(m) == 0, "a declaration's Tok is one of import/const/type/var; %v has no case and the default panics", m)
+						case "ast.UnaryExpr.Op":
+							m := missing(unaryOps)
+							c.Check(key, sw.Pos(), len(m) == 0, "a unary expression's operator is one of + - ! ^ & <-; %v has no case and the default panics", m)
+						case "ast.BinaryExpr.Op":
+							m := missing(binaryOps)
+							c.Check(key, sw.Pos(), len(m) == 0, "a binary expression's operator is one of the 19 binary operators; %v has no case and the default panics", m)
+						case "ir.BinOp.Op":
+							if m := missing(cmpOps); len(m) == 0 {
+								c.Check(key, sw.Pos(), true, "all comparison operators handled")
+								return true
+							}
+							// only == and != handled: one operand must be nil, established with (*ir.Const).IsNil
+							fn := c.FuncOfSyntax(InnermostFuncSyntax(fd, sw.Pos()))
+							if fn == nil {
+								c.Undecided("no SSA function for the token switch in %s", site)
+							}
+							nilEdges := CallTrueEdges(fn, func(call *ssa.Call) bool {
+								if callee := call.Call.StaticCallee(); callee != nil {
+									return isNilTest(callee)
+								}
+								// a local closure called through its variable
+								for x := range BackSlice(call.Call.Value, SliceOpts{}) {
+									if mc, ok := x.(*ssa.MakeClosure); ok {
+										if f, ok := mc.Fn.(*ssa.Function); ok && isNilTest(f) {
+											return true
+										}
+									}
+									if f, ok := x.(*ssa.Function); ok && isNilTest(f) {
+										return true
+									}
+								}
+								return false
+							})
+							// the first comparison of the switch
+							var first ssa.Instruction
+							Instrs(fn, false, func(in ssa.Instruction) {
+								b, ok := in.(*ssa.BinOp)
+								if !ok || b.Pos() < sw.Pos() || b.Pos() >= sw.End() || b.X.Type().String() != "go/token.Token" {
+									return
+								}
+								if first == nil || InstrDominates(b, first) {
+									first = b
+								}
+							})
+							// or: the operator itself was tested against exactly the handled operators before
+							opEdges := EqEdges(fn, func(x, y ssa.Value) bool {
+								k, ok := y.(*ssa.Const)
+								if !ok || k.Type().String() != "go/token.Token" || !DerivesLocal(x, IsFieldOf("ir.BinOp", "Op")) {
+									return false
+								}
+								if b := x.Referrers(); b != nil {
+									for _, r := range *b {
+										if bo, ok := r.(*ssa.BinOp); ok && (bo.Pos() >= sw.Pos() && bo.Pos() < sw.End()) {
+											_ = bo
+										}
+									}
+								}
+								// only tests against operators the switch handles count
+								kv, _ := ConstInt(k)
+								return (kv == int64(token.EQL) && have["EQL"]) || (kv == int64(token.NEQ) && have["NEQ"])
+							})
+							// the switch's own comparisons are not guards
+							for e := range opEdges {
+								blk := fn.Blocks[e.Block]
+								if iff, ok := blk.Instrs[len(blk.Instrs)-1].(*ssa.If); ok {
+									cond, _ := StripNot(iff.Cond)
+									if bo, ok := cond.(*ssa.BinOp); ok && bo.Pos() >= sw.Pos() && bo.Pos() < sw.End() {
+										delete(opEdges, e)
+									}
+								}
+							}
+							okGuard := false
+							why := "the switch could not be located in the IR of the function"
+							if first != nil && len(opEdges) > 0 {
+								if okOp, _ := MustPassEdges(fn, first, opEdges); okOp {
+									c.Check(key, sw.Pos(), true, "the operator was tested against the handled operators before the switch")
+									return true
+								}
+							}
+							if first != nil {
+								okGuard, _ = MustPassEdges(fn, first, nilEdges)
+								why = "no test through (*ir.Const).IsNil guards the switch"
+								if len(nilEdges) > 0 && !okGuard {
+									why = "a path reaches the switch without passing the nil test"
+								}
+							}
+							c.Check(key, sw.Pos(), okGuard && have["EQL"] && have["NEQ"], "this switch handles only == and != of an IR comparison and panics otherwise; that is complete only if one operand is nil, and nil-ness must be decided by (*ir.Const).IsNil — a constant without a value also represents the zero value of a type parameter, for which <, <=, >, >= are valid (%s)", why)
+						default:
+							why, ok := reviewed[site]
+							c.CheckTrivial(key, sw.Pos(), ok, "a switch over a token with a panicking default whose token source is not derived by the checker must be reviewed (%s)", why)
+						}
+						return true
+					})
+				}
+			}
+		}
+		if n < 3 {
+			c.Undecided("found only %d token switches with a panicking default", n)
 		}
 	})
 }
